@@ -355,6 +355,12 @@ def st_tls_case(draw: st.DrawFn, tier: str) -> dict:
         "frag_to_peer": [1 << 20],
         "delays": draw(st.sampled_from([[0.0], [0.0, 0.001]])),
         "mem_script": {"recv_max": draw(st.sampled_from([[1 << 30], [1, 5, 1 << 30]]))},
+        # full duplex: another task's send_all() is parked on backpressure (holding the transport send lock) while the
+        # reader is being cancelled
+        "blocked_sender": draw(st.sampled_from([False, True, True])),
+        "unblock_after": draw(st.integers(1, 30)),
+        "sender_start_ticks": draw(st.integers(0, 12)),
+        "reader_gaps": draw(st.lists(st.sampled_from([0, 1, 1, 2]), min_size=1, max_size=4)),
     }
 
 
@@ -375,6 +381,7 @@ async def _tls_session(case: dict) -> dict:
             task = asyncio.current_task()
             assert task is not None
             sizes = case["recv_sizes"]
+            gaps = case.get("reader_gaps") or [0]
             i = 0
             while len(received) < len(expected):
                 try:
@@ -389,8 +396,28 @@ async def _tls_session(case: dict) -> dict:
                 if not data:
                     break
                 received.extend(data)
+                # the application does something else between two receives (without this the reader drains everything the
+                # SSL object holds in one task step and nothing can interleave)
+                for _ in range(gaps[i % len(gaps)]):
+                    try:
+                        await asyncio.sleep(0)
+                    except asyncio.CancelledError:
+                        if cancels.get("stopping"):
+                            raise
+                        while task.uncancel() > 0:
+                            pass
 
+        sender = None
         rt = asyncio.create_task(reader())
+        if case.get("blocked_sender"):
+            # let the reader pull some ciphertext in first (several records may then sit decrypted-but-unread in the
+            # SSL object), then park a sender on backpressure: it keeps the transport send lock
+            for _ in range(case.get("sender_start_ticks", 3)):
+                await asyncio.sleep(0)
+            mem.set_writable(False)
+            sender = asyncio.create_task(tls.send_all(tlspeer.payload("sut", 0, 40000)))
+            for _ in range(3):
+                await asyncio.sleep(0)
         every = case["cancel_every"]
         j = 0
         budget = 80
@@ -403,6 +430,11 @@ async def _tls_session(case: dict) -> dict:
             if not rt.done():
                 rt.cancel()
                 cancels["n"] += 1
+            if sender is not None and cancels["n"] == case.get("unblock_after", 10):
+                mem.set_writable(True)
+        if sender is not None:
+            mem.set_writable(True)
+            await sender
         await rt
         await tls.aclose()
     finally:
@@ -422,8 +454,11 @@ def run_tls_case(case: dict) -> Outcome:
         r = run_virtual(_tls_session, case)
     except Deadlock as exc:
         raise Violation("reader-stuck", f"TLS session did not complete: {exc}", receive_layer="tls") from exc
-    _judge(r["received"], r["stream"], "tls-recv", receive_layer="tls")
-    return Outcome(nontrivial=r["cancels"] > 0, classes=("tls", f"cancels-{min(r['cancels'] // 10, 5)}0+"))
+    _judge(r["received"], r["stream"], "tls-recv", receive_layer="tls", sender_parked=bool(case.get("blocked_sender")))
+    return Outcome(
+        nontrivial=r["cancels"] > 0,
+        classes=("tls", f"cancels-{min(r['cancels'] // 10, 5)}0+") + (("sender-parked-on-backpressure",) if case.get("blocked_sender") else ()),
+    )
 
 
 # ----------------------------------------------------------------------------------------------
@@ -462,7 +497,7 @@ CHECK = Check(
     ),
     layers=[
         Layer("schedule", st_schedule_case, run_schedule_case, {"quick": 1500, "thorough": 8000}),
-        Layer("tls", st_tls_case, run_tls_case, {"quick": 60, "thorough": 400}),
+        Layer("tls", st_tls_case, run_tls_case, {"quick": 200, "thorough": 1000}),
         Layer("blocking", st_blocking_case, run_blocking_case, {"quick": 400, "thorough": 2000}),
     ],
     assumptions=[
